@@ -4,6 +4,9 @@
 def replay(case):
     from . import c04, corpus, tv
     t = case['task']; inp = case['inputs']
+    if t['kind'] == 'sumcheck':
+        # a mismatch between a summary and the real operation is a fault of the machinery (or a changed operation that C01 / C02 report)
+        return {'violates': None, 'error': 'operation summary disagrees with the real operation: %s' % (inp,)}
     if t['kind'] == 'entry':
         bad, _ = c04.entry_problems()
         mine = [b for b in bad if b[:3] == inp['row'][:3]]
